@@ -10,9 +10,9 @@ extern "C" {
 }
 typedef long double LD;
 
-enum { L_PLAIN, L_FUZZY, L_NEURO, L_EXACT, L_REAL, L_OUT_LIMIT_ACTIVE, L_OUT_LIMIT_RELEASED, L_SUM_CLAMP_ACTIVE, L_SUM_CLAMP_RELEASED, L_ZERO_MID, L_MODE_SWITCH, L_POS_EQ_INC, L_GAIN_CHANGE, L_ZERO_RULES, L_LONG, L_RULES_RECONFIGURED, L_SHARED_TABLE };
+enum { L_PLAIN, L_FUZZY, L_NEURO, L_EXACT, L_REAL, L_OUT_LIMIT_ACTIVE, L_OUT_LIMIT_RELEASED, L_SUM_CLAMP_ACTIVE, L_SUM_CLAMP_RELEASED, L_ZERO_MID, L_MODE_SWITCH, L_POS_EQ_INC, L_GAIN_CHANGE, L_ZERO_RULES, L_LONG, L_RULES_RECONFIGURED, L_SHARED_TABLE, L_CLAMP_FINE_BITS };
 static char const *const labels[] = {"plain_pid", "fuzzy_pid", "neuro_pid", "exact_class", "real_class", "output_limit_active", "output_limit_released_again", "integrator_clamp_active",
-                                     "integrator_clamp_released_again", "zero_mid_history", "mode_switched_within_history", "positional_vs_incremental_compared", "gains_changed_mid_history", "fuzzy_all_zero_rule_base", "history_ge_50", "fuzzy_tables_or_operator_changed_mid_history", "one_membership_table_object_for_both_inputs", nullptr};
+                                     "integrator_clamp_released_again", "zero_mid_history", "mode_switched_within_history", "positional_vs_incremental_compared", "gains_changed_mid_history", "fuzzy_all_zero_rule_base", "history_ge_50", "fuzzy_tables_or_operator_changed_mid_history", "one_membership_table_object_for_both_inputs", "integrator_clamp_with_more_bits_than_a_float_holds", nullptr};
 static char const *const metrics[] = {"max_steps", nullptr};
 static uint8_t const dict[] = {0, 1, 2, 3, 7, 8};
 static vp_info const info = {"C12", "pid", "", labels, metrics, 500, dict, sizeof(dict)};
@@ -69,16 +69,27 @@ struct Limits
     R kp, ki, kd, summax, summin, outmax, outmin;
 };
 
+static bool g_small_err = false; // the exact inputs of this history are small integers (set by gen_cfg)
 static Limits gen_cfg(Tape &t, Ctx &cx, bool exact, bool wide)
 {
     Limits c;
+    g_small_err = false;
     if (exact)
     {
         c.kp = R(int(t.u8() % 129) - 64) / 8;
         c.ki = R(t.u8() % 65) / 8;
         c.kd = R(int(t.u8() % 129) - 64) / 8;
-        c.summax = R(t.u16() % 5000);
-        c.summin = -R(t.u16() % 5000);
+        {
+            // integer clamps, some of them moved outwards by 2^-30: a value with more significant bits than a float holds (in the
+            // double build; the float build rounds it back), so that a sum sitting exactly on the integer is strictly inside
+            uint16_t w1 = t.u16(), w2 = t.u16();
+            c.summax = R(w1 % 5000);
+            c.summin = -R(w2 % 5000);
+            // ... the integer being a small multiple of ki, and the errors of this history small integers, so that the sum does land on it
+            g_small_err = false;
+            if (w1 >= 60000) { c.summax = R(double(c.ki) * (1 + w1 % 16) + 9.313225746154785e-10); cx.label(L_CLAMP_FINE_BITS); g_small_err = true; }
+            if (w2 >= 60000) { c.summin = R(-double(c.ki) * (1 + w2 % 16) - 9.313225746154785e-10); cx.label(L_CLAMP_FINE_BITS); g_small_err = true; }
+        }
         R a = R(int(t.u16() % 20001) - 10000), b = R(int(t.u16() % 20001) - 10000);
         c.outmin = std::min(a, b);
         c.outmax = std::max(a, b);
@@ -117,6 +128,7 @@ static void gen_in(Tape &t, bool exact, R &set, R &fdb)
     {
         set = R(int(t.u16() % unsigned(2 * IN_LIM + 1)) - IN_LIM);
         fdb = R(int(t.u16() % unsigned(2 * IN_LIM + 1)) - IN_LIM);
+        if (g_small_err) { set = R(int(set) % 3); fdb = R(int(fdb) % 2); }
     }
     else
     {
@@ -548,6 +560,7 @@ static void case_zero_fresh(Tape &t, Ctx &cx)
 
 static void run_case(Tape &t, Ctx &cx)
 {
+    g_small_err = false; // nothing is carried over from one case to the next
     switch (t.u8() % 6)
     {
     case 0: case 1: case_plain(t, cx); break;
